@@ -9,7 +9,7 @@ OVERLAY_FS = {"fs/verif_taskcallers_test.go": "fs/verif_taskcallers_test.go"}
 INTERNAL = ("TypeOK", "PrioAccount", "SemAccount", "SemBound")
 SITE = "InvokeBackgroundTask"
 FORMULAS = ("Bounded", "NoSelfOverlap", "NoneRunningAtReturn", "MonStartOnlyWhenQuiet", "MonAllReturned", "MonCancelReaches",
-            "MonCallersBalanced")
+            "MonCallersBalanced", "MonNoLateStart")
 # the monitor evaluates every formula on every recorded state and reports all that are false (TLC stops at the first
 # violated invariant otherwise); TLC still does the deciding, python only reads the VFAIL lines
 MON_REPORT = """
@@ -61,7 +61,7 @@ def validate(run, trace_path, conc, period_us, what, SITE=SITE):
     for f, line in fails.items():
         tr, idx = trace_of(line)
         name = {"MonStartOnlyWhenQuiet": "StartOnlyWhenQuiet", "MonAllReturned": "hang:EventuallyCompletes",
-                "MonCancelReaches": "hang:CancelOnPrioritized", "MonCallersBalanced": "CallersBalanced"}.get(f, f)
+                "MonCancelReaches": "hang:CancelOnPrioritized", "MonCallersBalanced": "CallersBalanced", "MonNoLateStart": "StartOnlyWhenQuiet:late-start"}.get(f, f)
         run.violation("monitor:%s:%s:%s" % (name, SITE, what),
                       "%s false on the recorded states after event %d (%s) of a %s trace (concurrency %d)" % (
                           name, idx, json.dumps(tr[1][idx - 1]), what, conc),
